@@ -238,6 +238,12 @@ func ParseTokenParam(buf []byte, offs int, param *PTokParam,
 					// do nothing, allow empty params, just skip them
 					break
 				}
+				if c == term && term != 0 && param.state == paramFNxt {
+					// empty param(s) between the last param and the
+					// terminator (e.g. "p1;,"): p1 was the last one
+					param.state = paramFIN
+					return i, ErrHdrOk
+				}
 				if !tokAllowedChar(c, flags) {
 					param.state = paramERR
 					return i, ErrHdrBadChar
